@@ -455,7 +455,7 @@ func getTypeConverter(typ reflect.Type) (TypeConverter, error) {
 		}
 	case reflect.Map:
 		if typ.Key().Kind() == reflect.String {
-			converter, err = newMapConverter(typ.Elem())
+			converter, err = newMapConverterWithKey(typ.Key(), typ.Elem())
 			if err != nil {
 				return nil, err
 			}
@@ -955,6 +955,8 @@ func (c *DynamicConverter) From(obj interface{}) (Object, error) {
 type MapConverter struct {
 	valueConverter TypeConverter
 	valueType      reflect.Type
+	// keyType is the Go map's key type: string or a named type of kind string
+	keyType reflect.Type
 }
 
 func (c *MapConverter) To(obj Object) (interface{}, error) {
@@ -965,20 +967,21 @@ func (c *MapConverter) To(obj Object) (interface{}, error) {
 	if !ok {
 		return nil, errz.TypeErrorf("type error: expected map (%s given)", obj.Type())
 	}
-	keyType := reflect.TypeOf("")
-	mapType := reflect.MapOf(keyType, c.valueType)
+	mapType := reflect.MapOf(c.keyType, c.valueType)
 	gMap := reflect.MakeMapWithSize(mapType, tMap.Size())
 	for k, v := range tMap.items {
 		conv, err := c.valueConverter.To(v)
 		if err != nil {
 			return nil, err
 		}
+		// a named key type (type Key string) needs the key converted to it
+		key := reflect.ValueOf(k).Convert(c.keyType)
 		if conv == nil {
 			// the zero reflect.Value would delete the key instead of storing nil
-			gMap.SetMapIndex(reflect.ValueOf(k), reflect.Zero(c.valueType))
+			gMap.SetMapIndex(key, reflect.Zero(c.valueType))
 			continue
 		}
-		gMap.SetMapIndex(reflect.ValueOf(k), reflect.ValueOf(conv))
+		gMap.SetMapIndex(key, reflect.ValueOf(conv))
 	}
 	return gMap.Interface(), nil
 }
@@ -992,12 +995,18 @@ func (c *MapConverter) From(obj interface{}) (Object, error) {
 		if err != nil {
 			return nil, err
 		}
-		o[key.Interface().(string)] = conv
+		o[key.String()] = conv // the key is of kind string, possibly of a named type
 	}
 	return NewMap(o), nil
 }
 
 func newMapConverter(valueType reflect.Type) (*MapConverter, error) {
+	return newMapConverterWithKey(reflect.TypeOf(""), valueType)
+}
+
+// newMapConverterWithKey creates a converter for maps whose key type is string
+// or a named type of kind string.
+func newMapConverterWithKey(keyType, valueType reflect.Type) (*MapConverter, error) {
 	valueConverter, err := createTypeConverter(valueType)
 	if err != nil {
 		return nil, errz.TypeErrorf("type error: unsupported map value type %s", valueType)
@@ -1005,6 +1014,7 @@ func newMapConverter(valueType reflect.Type) (*MapConverter, error) {
 	return &MapConverter{
 		valueConverter: valueConverter,
 		valueType:      valueType,
+		keyType:        keyType,
 	}, nil
 }
 
